@@ -56,9 +56,9 @@ def check_unit(st, w, tname, sym):
                     f"{ref!r}, expected {tm.ref!r}"))
         return out
     want = O.UNIT_REF[sym][1]
-    got = O.fr(cls(1, u).convert(ref).amount) if tm.quantum is None else \
-        O.fr(u._equiv) if False else None
-    if tm.quantum is not None:
+    if tm.quantum is None:
+        got = O.fr(cls(1, u).convert(ref).amount)
+    else:
         # a quantized type rounds 1*unit; use a multiple that is exact
         q = cls(8, u)
         got = O.fr(q.equiv_amount(ref)) / 8
@@ -250,6 +250,14 @@ def run_case(case, st=None, w=None):
         return check_unit(st, w, case[1], case[2])
     if kind == 'pair':
         return check_pair(st, w, case[1], case[2], case[3])
+    if kind == 'pair-after-stir':
+        for f in (lambda a, b: a / b, lambda a, b: a * b):
+            for x, y in ((case[2], case[3]), (case[3], case[2])):
+                try:
+                    f(w.units[x], w.units[y])
+                except Exception:
+                    pass
+        return check_pair(st, w, case[1], case[2], case[3])
     if kind == 'doc':
         return check_doc(st, w)
     if kind == 'prefixes':
@@ -317,6 +325,33 @@ def run(tier, seed):
                 n_pairs += 1
                 st.state(('pair', s1, s2), nontrivial=(s1 != s2))
                 do(['pair', tname, s1, s2])
+    # second pass from a non-initial evaluation history: every same-type
+    # unit quotient / product and every comparison has been evaluated once
+    # (memoised state, if any, is now populated), then all pairs again
+    n_stir = 0
+    for tname, (dim, ref, quantum, units) in O.CATALOGUE.items():
+        syms = [s for s in units if s in w.units]
+        for s1 in syms:
+            for s2 in syms:
+                for f in (lambda a, b: a / b, lambda a, b: a * b,
+                          lambda a, b: a < b, lambda a, b: a == b):
+                    try:
+                        f(w.units[s1], w.units[s2])
+                    except Exception:
+                        pass
+                    n_stir += 1
+    for tname, (dim, ref, quantum, units) in O.CATALOGUE.items():
+        if ref is None:
+            continue
+        syms = [s for s in units if s in w.units]
+        for s1 in syms:
+            for s2 in syms:
+                st.state(('pair-after-stir', s1, s2), nontrivial=(s1 != s2))
+                for sig, msg in run_case(['pair', tname, s1, s2], st, w):
+                    st.violation(sig + ':after-unit-ops', msg,
+                                 ['pair-after-stir', tname, s1, s2])
+                st.paths += 1
+    st.transitions += n_stir
     st.sample({'case': ['pair', 'Length', 'mi', 'in'],
                'meaning': '5 amounts converted mi->in vs 1609.344/0.0254'})
     st.sample({'case': ['unit', 'Mass', 'oz'], 'reference': '0.028349523125'})
